@@ -6,15 +6,16 @@ def mul1(op):
     rel = {'mul_1': 'V_MULREL (V_rp0[gk], V_u, vl, g_ci, CO)', 'addmul_1': 'V_ADDMULREL (V_rp0[gk], V_r, V_u, vl, g_ci, CO)',
            'submul_1': 'V_SUBMULREL (V_rp0[gk], V_r, V_u, vl, g_ci, CO)'}[op]
     inv = '''(1 <= n && n <= V_n0 && up == V_up0 + (V_n0 - n) && rp == V_rp0 + (V_n0 - n) && (n == V_n0 ==> cl == 0)
-      && ((gk >= V_n0 - n) ==> (V_up0[gk] == V_u && V_rp0[gk] == V_r))
+      && ((gk >= V_n0 - n && gk < V_n0) ==> (V_up0[gk] == V_u && V_rp0[gk] == V_r))
       && (gk < V_n0 - n ==> %s)
-      && ((gk == 0 && gk < V_n0 - n) ==> g_ci == 0))''' % rel.replace('CO', '(gk == V_n0 - n - 1 ? cl : g_co)')
+      && ((gk == 0 && gk < V_n0 - n) ==> g_ci == 0) NZ)''' % rel.replace('CO', '(gk == V_n0 - n - 1 ? cl : g_co)')
+    inv = inv.replace('NZ', '&& ((gk < V_n0 - n && V_u != 0 && vl != 0) ==> (V_rp0[gk] != 0 || (gk == V_n0 - n - 1 ? cl : g_co) != 0))' if op == 'mul_1' else '')
     sc = ['ul', 'cl', 'hpl', 'lpl', 'n', 'g_ci', 'g_co'] + ([] if op == 'mul_1' else ['rl'])
     u = dict(
         name='mpn_' + op, props=['C01', 'C05', 'C04', 'C15'], source='mpn/generic/%s.c' % op, contracts=['mpn.h'], enforce=[f],
         assumptions=['umul_ppmm (x86 mulq) is an uninterpreted function pair (hi,lo) with hi <= B-2 and exactness for operands 0/1: the kernels are proved correct relative to the machine multiply'],
         functions={f: dict(
-            entry='mp_size_t V_n0 = n; mp_ptr V_rp0 = rp; mp_srcptr V_up0 = up; mp_limb_t V_u = up[gk], V_r = rp[gk];',
+            entry='mp_size_t V_n0 = n; mp_ptr V_rp0 = rp; mp_srcptr V_up0 = up; mp_limb_t V_u = gk < n ? up[gk] : 0, V_r = gk < n ? rp[gk] : 0;',
             loops={0: dict(scalars=sc, havoc_targets=['up', 'rp'],
                            havoc='{ __CPROVER_assume (1 <= n && n <= V_n0); up = V_up0 + (V_n0 - n); rp = V_rp0 + (V_n0 - n); }',
                            slices=[('V_rp0', 'V_n0 * 8')], inv=inv, dec='n',
